@@ -227,7 +227,7 @@ def cases(draw, max_steps=12):
     k = draw(st.sampled_from(["ok", "ok", "ok", "ok_other_ctx", "msgid", "msgid", "novb", "response"]))
     case["disco"] = dict(kind=k)
     if k == "msgid":
-        case["disco"]["delta"] = draw(st.sampled_from([1, -1, 4711, -99999]))
+        case["disco"]["delta"] = draw(st.sampled_from([1, -1, 4711, -99999, 2 ** 32, -2 ** 32, 3 * 2 ** 32, 2 ** 40]))
     return case
 
 
